@@ -97,6 +97,7 @@ def pure83(name):
 
 
 def run(ctx, build):
+    model_correspondence(ctx)
     from nobodd.fs import FatFileSystem
     R = ctx.runner('Fat')
     rng = ctx.rng
@@ -204,6 +205,11 @@ def run(ctx, build):
                 if name.upper() in expected:
                     if not create(name, 'case-variant') or len(expected) != n0 or not verify(expected[name.upper()][0], 'variant'):
                         return
+            # short alias prefixes (the numeric tail grows into the prefix: AB~9 -> AB~10)
+            for i in range(1, 14):
+                name = 'a' + ' ' * i + 'b'
+                if not create(name, 'short-prefix-tail') or (i in (1, 9, 10, 11, 13) and not verify(name, 'tail')):
+                    return
             # 2. many names sharing the first six alias characters
             for k in range(1, tails + 1):
                 name = f'Shared Prefix name {k}.txt'
@@ -248,6 +254,14 @@ def run(ctx, build):
             except Exception:
                 pass
     ctx.sample(dict(names=VALID[:8], tails=tails))
+
+
+def model_correspondence(ctx):
+    """differential runs of the extracted Coq model of name handling against the real FatDirectory"""
+    import fat_names_corr
+    fat_names_corr.run(ctx)
+    SPEC['theorems'].update(getattr(fat_names_corr, 'SPEC_THEOREMS', {}))
+    SPEC['trusted_base'].extend(x for x in getattr(fat_names_corr, 'TRUSTED', []) if x not in SPEC['trusted_base'])
 
 
 def replay(ctx, obj):
